@@ -197,7 +197,8 @@ def gen_doc(rng):
         return gid
     for _ in range(rng.randint(1, 3)): gradient()
     if len(grads) > 1 and rng.random() < 0.5: grads.reverse()      # templates after their users as well as before
-    def tf(): return ' transform="%s"' % rng.choice(['translate(3,2)', 'scale(1.25,0.75)', 'rotate(15 16 16)', 'matrix(1 0 0.3 1 0 0)', 'translate(-2,1) scale(0.9)', 'rotate(90 16 16)'])
+    def tf(): return ' transform="%s"' % rng.choice(['translate(3,2)', 'scale(1.25,0.75)', 'rotate(15 16 16)', 'matrix(1 0 0.3 1 0 0)', 'translate(-2,1) scale(0.9)', 'rotate(90 16 16)',
+                                                     'translate(30,2) scale(-1,1.25)', 'translate(2,30) scale(1,-1)'])      # mirrorings: axis-aligned, but not a bbox-preserving map
     def shape():
         x, y = rng.randint(2, 12), rng.randint(2, 12)
         f = f' fill="url(#{rng.choice(ids)})"'
